@@ -16,6 +16,14 @@ pub struct RenCase {
     pub naming2: Naming,
     /// names are interned in reverse order before the second run (reverses the internal order of textual names)
     pub preintern_reverse: bool,
+    /// how the rules' slots are spelled in the second run (Mixed::rule_slot_variant): 1 = $r<name> interned in reverse order,
+    /// 2.. = names of existing class parameter slots ($f<n>)
+    #[serde(default = "one")]
+    pub rule_variant2: u8,
+}
+
+fn one() -> u8 {
+    1
 }
 
 /// everything observable about one run, expressed in abstract names
@@ -138,7 +146,10 @@ fn run_l<L: Language + 'static>(c: &RenCase, obs: &mut Obs) -> Result<(), String
     })??;
     let (mut c2, n2, an2, pre) = (c.base.clone(), c.naming2.clone(), all_names.clone(), c.preintern_reverse);
     // the rules are inputs as well: in the second run their pattern slots carry other names, interned in reverse order
-    c2.rule_slot_variant = 1;
+    c2.rule_slot_variant = c.rule_variant2.max(1);
+    if c.rule_variant2 >= 2 && c.base.n_rewrites() > 0 {
+        obs.label("rule-slots-named-like-class-slots");
+    }
     let r2 = in_fresh_thread(move || {
         if pre {
             for n in an2.iter().rev() {
@@ -209,8 +220,8 @@ fn strategy(lang: LangId, max_ops: usize) -> BoxedStrategy<RenCase> {
     cfg.max_ops = max_ops;
     cfg.hist.namings = vec![Naming::Alpha, Naming::Numeric, Naming::NumericRev];
     let namings = vec![Naming::Alpha, Naming::Numeric, Naming::NumericRev, Naming::FreshLike, Naming::AlphaRev];
-    (mixed_strategy(cfg), proptest::sample::select(namings), any::<bool>())
-        .prop_map(|(base, naming2, preintern_reverse)| RenCase { base, naming2, preintern_reverse })
+    (mixed_strategy(cfg), proptest::sample::select(namings), any::<bool>(), any::<u8>())
+        .prop_map(|(base, naming2, preintern_reverse, rv)| RenCase { base, naming2, preintern_reverse, rule_variant2: if rv % 3 == 0 { 2 + (rv / 3) % 8 } else { 1 } })
         .prop_filter("different naming", |c| c.base.naming != c.naming2 || c.preintern_reverse)
         .boxed()
 }
@@ -224,11 +235,11 @@ pub fn property(tier: Tier) -> Property {
             source: random(move || strategy(lang, max_ops), tier.pick(q, t)),
             run,
             panic_is_violation: false,
-            render: |c: &RenCase| format!("{} naming1={:?} naming2={:?} preintern_reverse={}", c.base.render(), c.base.naming, c.naming2, c.preintern_reverse),
+            render: |c: &RenCase| format!("{} naming1={:?} naming2={:?} preintern_reverse={}", c.base.render(), c.base.naming, c.naming2, c.preintern_reverse) + if c.rule_variant2 >= 2 { " rule slots named like existing class slots" } else { "" },
             rule: "a mixed history (insertions, unions, rewrite iterations, min-size analysis, extraction) run twice in fresh threads under two injective spellings of the slot alphabet ($a.., $1.., $300-i (reversed numeric order), $f0.. (collides with internal fresh names), $z.. ; optionally interned in reverse order); every observable compared in abstract names; non-trivial = the renaming reverses the internal order of slots occurring together in a node and the history has a symmetry or a redundancy; distinct by rendered case",
             case_timeout_s: tier.pick(30, 120),
             exhaustive: false,
         }));
     }
-    Property { id: "C11", scale: tier.pick(3, 2), stages, assumptions: vec!["in the second run the pattern slots of the rewrite rules are renamed as well ($x -> $rx ..) and interned in reverse order".into()] }
+    Property { id: "C11", scale: tier.pick(3, 2), stages, assumptions: vec!["in the second run the pattern slots of the rewrite rules are renamed as well: $x -> $rx .. interned in reverse order, or (one case in three) spelled with the names of parameter slots of classes that exist when the rule is built ($f<n>)".into()] }
 }
